@@ -15,14 +15,13 @@ Definition w_dagger_loaded : prog := plain 1 [gate 0 [VNum 1] [0] false].
 Lemma bb_dagger_refuted : bb_roundtrip w_dagger = Ok w_dagger_loaded /\ w_dagger_loaded <> w_dagger.
 Proof. split; [vm_compute; reflexivity | discriminate]. Qed.
 
-Lemma xir_dagger_refuted : xir_roundtrip w_dagger = Ok w_dagger_loaded /\ w_dagger_loaded <> w_dagger.
-Proof. split; [vm_compute; reflexivity | discriminate]. Qed.
+(* since the `inv` modifier is written and read (fix 6d1a8e2) XIR keeps the dagger *)
+Lemma xir_dagger_kept : xir_roundtrip w_dagger = Ok w_dagger.
+Proof. vm_compute; reflexivity. Qed.
 
-(* target "gaussian" with shots: XIR writes option `target`, from_xir reads `_target_` *)
+(* target "gaussian" with shots: kept by both formats (XIR since fix 7f2422a) *)
 Definition w_target : prog := mkProg 1 (Some 0) (Some 5%Z) None [gate 0 [VNum 1] [0] false] None.
-Lemma xir_target_refuted :
-  xir_roundtrip w_target = Ok (mkProg 1 None (Some 5%Z) None [gate 0 [VNum 1] [0] false] None)
-  /\ bb_roundtrip w_target = Ok w_target.
+Lemma target_kept : xir_roundtrip w_target = Ok w_target /\ bb_roundtrip w_target = Ok w_target.
 Proof. split; vm_compute; reflexivity. Qed.
 
 (* shots / cutoff without a target: the Blackbird writer only records options under a target *)
@@ -82,21 +81,21 @@ Lemma tdm_expr_refuted :
   /\ xir_roundtrip w_tdm_expr = Ok (mkProg 2 None None None [gate 0 [VStr (SPrintNames (EBin 1 (ENum 2) (EAtom (AFree (NP 0)))))] [0] false] (Some (mkTdm [2] [10%Z] None))).
 Proof. split; vm_compute; reflexivity. Qed.
 
-(* TDM, MeasureHomodyne with a numeric angle or a select value: is_ptype(len()) raises TypeError in from_xir_to_tdm *)
+(* TDM, MeasureHomodyne with a numeric angle or a select value: loads through both formats (XIR since fix 4f17b2d) *)
 Definition w_tdm_numphi : prog :=
   mkProg 2 None None None [mkCmd (OMeas MHom) [VNum 3] [0] false None None] (Some (mkTdm [2] [10%Z] None)).
 Definition w_tdm_select : prog :=
   mkProg 2 None None None [mkCmd (OMeas MHom) [VSym (EAtom (AFree (NP 0)))] [0] false (Some (VNum 4)) None] (Some (mkTdm [2] [10%Z] None)).
-Lemma xir_tdm_dict_refuted :
-  xir_roundtrip w_tdm_numphi = Err ETypeError /\ xir_roundtrip w_tdm_select = Err ETypeError
+Lemma xir_tdm_dict_kept :
+  xir_roundtrip w_tdm_numphi = Ok w_tdm_numphi /\ xir_roundtrip w_tdm_select = Ok w_tdm_select
   /\ bb_roundtrip w_tdm_numphi = Ok w_tdm_numphi /\ bb_roundtrip w_tdm_select = Ok w_tdm_select.
 Proof. repeat split; vm_compute; reflexivity. Qed.
 
-(* TDM with cutoff_dim / shift: not carried by XIR; shift not carried by Blackbird *)
+(* TDM with a non-default shift: carried by neither format (cutoff_dim is, by both) *)
 Definition w_tdm_opts : prog :=
   mkProg 2 (Some 3) (Some 4%Z) (Some 6%Z) [gate 0 [VSym (EAtom (AFree (NP 0)))] [0] false] (Some (mkTdm [2] [10%Z] (Some 1))).
 Lemma tdm_opts_refuted :
-  xir_roundtrip w_tdm_opts = Ok (mkProg 2 (Some 3) (Some 4%Z) None [gate 0 [VSym (EAtom (AFree (NP 0)))] [0] false] (Some (mkTdm [2] [10%Z] None)))
+  xir_roundtrip w_tdm_opts = Ok (mkProg 2 (Some 3) (Some 4%Z) (Some 6%Z) [gate 0 [VSym (EAtom (AFree (NP 0)))] [0] false] (Some (mkTdm [2] [10%Z] None)))
   /\ bb_roundtrip w_tdm_opts = Ok (mkProg 2 (Some 3) (Some 4%Z) (Some 6%Z) [gate 0 [VSym (EAtom (AFree (NP 0)))] [0] false] (Some (mkTdm [2] [10%Z] None))).
 Proof. split; vm_compute; reflexivity. Qed.
 
@@ -121,33 +120,27 @@ Definition ex_bb_tdm : prog :=
 Lemma ex_bb_tdm_ok : bb_prog_ok ex_bb_tdm = true. Proof. vm_compute; reflexivity. Qed.
 
 Definition ex_xir : prog :=
-  mkProg 3 None (Some 10%Z) (Some 5%Z)
-    [ gate 3 [VNum 1; VNum 2] [2; 0] false;
+  mkProg 3 (Some 2) (Some 10%Z) (Some 5%Z)
+    [ gate 3 [VNum 1; VNum 2] [2; 0] true;
       mkCmd (OMeas MHom) [VSym (EBin 0 (EAtom (AMeas 2)) (EAtom (AFree (NId 0))))] [0] false (Some (VNum 4)) None;
       gate 7 [VSeq 6] [1; 2] false;
       mkCmd (OMeas MFock) [] [1; 2] false (Some (VSeq 7)) None ] None.
 Lemma ex_xir_ok : xir_prog_ok ex_xir = true. Proof. vm_compute; reflexivity. Qed.
 
 Definition ex_xir_tdm : prog :=
-  mkProg 3 (Some 3) (Some 1%Z) None
-    [ gate 3 [VSym (EAtom (AFree (NP 0))); VNum 2] [0; 1] false;
+  mkProg 3 (Some 3) (Some 1%Z) (Some 8%Z)
+    [ gate 3 [VSym (EAtom (AFree (NP 0))); VNum 2] [0; 1] true;
       gate 1 [VSym (EAtom (AFree (NP 1)))] [1] false;
-      mkCmd (OMeas MHom) [VSym (EAtom (AFree (NP 2)))] [0] false None None;
+      mkCmd (OMeas MHom) [VSym (EAtom (AFree (NP 2)))] [0] false (Some (VNum 4)) None;
+      mkCmd (OMeas MHom) [VNum 3] [1] false None None;
       mkCmd (OMeas MFock) [] [2] false (Some (VSeq 7)) None ]
     (Some (mkTdm [1; 2] [10%Z; 11%Z; 12%Z] None)).
 Lemma ex_xir_tdm_ok : xir_prog_ok ex_xir_tdm = true. Proof. vm_compute; reflexivity. Qed.
 
 (* ---- the statements as they appear in Properties/C14.v *)
 
-Lemma dagger_refuted_stmt : exists p p', bb_roundtrip p = Ok p' /\ xir_roundtrip p = Ok p' /\ p' <> p.
+Lemma bb_dagger_refuted_stmt : exists p p', bb_roundtrip p = Ok p' /\ xir_roundtrip p = Ok p /\ p' <> p.
 Proof. exists w_dagger, w_dagger_loaded. repeat split; try (vm_compute; reflexivity). discriminate. Qed.
-
-Lemma xir_target_refuted_stmt :
-  exists p, ptarget p <> None /\ bb_roundtrip p = Ok p /\ exists p', xir_roundtrip p = Ok p' /\ ptarget p' = None.
-Proof.
-  exists w_target. split; [discriminate|]. split; [vm_compute; reflexivity|].
-  eexists. split; [vm_compute; reflexivity | reflexivity].
-Qed.
 
 Lemma bb_options_refuted_stmt :
   exists p, pshots p <> None /\ xir_roundtrip p = Ok p /\ exists p', bb_roundtrip p = Ok p' /\ pshots p' = None /\ pcutoff p' = None.
